@@ -14,6 +14,9 @@
 (*       over -> fails locally with MessageTooLarge and the server sees nothing   *)
 (*   bounded (very long method paths): whatever is answered - the error echoing    *)
 (*       the path or its replacement - is one message, with the id, <= limit       *)
+(*   burst: a small pushed notify followed by an oversized response, or three     *)
+(*       pipelined responses (small, oversized, small): all queued together -     *)
+(*       nothing above the limit, no message lost, the refusal reported           *)
 (*   in every case the connection is usable afterwards.                           *)
 EXTENDS Integers, Sequences, FiniteSets, TLC, Json, IOUtils
 Rec == ndJsonDeserialize(IOEnv.TRACE)
@@ -40,6 +43,11 @@ Bad(e) ==
           THEN (IF ~Has(e.notifies_observed, e.size) THEN "notify_not_delivered" ELSE "")
           ELSE (IF Has(e.notifies_observed, e.size) \/ ~AllLeq(e.notifies_observed, e.limit) THEN "oversize_sent"
                 ELSE IF ~e.reported THEN "not_reported" ELSE ""))
+    ELSE IF e.kind = "burst" THEN
+         \* several messages queued together, the oversized one not first: every message still passes the guard
+         (IF ~AllLeq(e.observed, e.limit) THEN "oversize_sent"
+          ELSE IF Len(e.observed) # e.expected_messages THEN "burst_message_lost"
+          ELSE IF ~e.reported THEN "not_reported" ELSE "")
     ELSE IF e.kind = "bounded" THEN
          \* a request with a very long method path: exactly one answer, with the request's id, within the limit
          (IF Len(e.observed) # 1 THEN "no_answer"
